@@ -1122,6 +1122,16 @@ func (w *vc13World) checkRound(
 		cls("parallel")
 	}
 
+	if info.idx != nil && idxApplied && hits[vc13IdxPath] > 0 && len(info.idx.urls["a"]) > 0 && len(info.idx.urls["ua"]) > 0 {
+		cls("ids-differ-in-case-only")
+		for _, name := range []string{"a", "ua"} {
+			s, twin := vc13SlotByName(name), vc13SlotByName(vc13CaseTwin[name])
+			if !info.urls[s.path].ok && hits[s.path] > 0 && before.Served[name] == 0 && info.urls[twin.path].ok && hits[twin.path] > 0 {
+				cls("ids-differ-in-case-only:one-fails-without-previous")
+			}
+		}
+	}
+
 	if info.svcFlavor == "emptyrules" && hits["/svc"] > 0 && ri > 0 && after.Served["svc"] == info.urls["/svc"].ver {
 		cls("svc-emptyrules-applied")
 	}
@@ -2077,6 +2087,10 @@ func vc13GenSeq(t *rapid.T) (seq *vc13Seq) {
 			}
 		}
 
+		if rapid.IntRange(0, 3).Draw(t, lbl+"-ua-fault") == 0 {
+			rd.S["ua"] = vc13GenFault(t, lbl+"-ua", &hangs)
+		}
+
 		rd.Tight = rapid.IntRange(0, 5).Draw(t, lbl+"-tight") == 0
 		rd.Dribble = rapid.IntRange(0, 3).Draw(t, lbl+"-dribble") == 0
 		rd.Parallel = rapid.IntRange(0, 3).Draw(t, lbl+"-parallel") == 0
@@ -2119,6 +2133,7 @@ var vc13RequiredClasses = []string{
 	"index-valid-json-wrong-top-level-shape", "index-filters-value-not-an-array",
 	"index-entry-of-wrong-type-next-to-valid-entries", "service-index-invalid-entry-not-last",
 	"successful-round-after-failed-round-within-staleness", "rule-list-file-within-staleness",
+	"ids-differ-in-case-only", "ids-differ-in-case-only:one-fails-without-previous",
 	"parallel", "cancel:seen-by-the-code", "index-empty", "svc-emptyrules-applied", "probe:verdict-while-body-in-flight",
 	"size-limit:applied",
 	"fault:oversize", "fault:oversize_chunked", "fault:oversize_close", "fault:short_cl", "fault:chunk_trunc",
@@ -2258,6 +2273,33 @@ func vc13GridSeqs() (seqs []*vc13Seq) {
 			mid.S["a"] = vc13Script{Kind: k, Fill: 3, CutPct: cut}
 			mid.S["adult"] = vc13Script{Kind: k, Fill: 3, CutPct: cut}
 			seqs = append(seqs, three(mid))
+		}
+	}
+
+	// Two lists whose IDs differ only in letter case, with different content:
+	// both fine; one of them failing with and without a previous version, in
+	// both orders; one leaving the index.
+	{
+		both := []vc13Entry{{T: "valid", L: "a"}, {T: "valid", L: "ua"}, {T: "valid", L: "b"}}
+		withBoth := func() (rd vc13Round) {
+			rd = okRound()
+			rd.Entries = both
+
+			return rd
+		}
+
+		seqs = append(seqs, &vc13Seq{CacheOn: true, Rounds: []vc13Round{withBoth(), withBoth(), okRound(), withBoth()}})
+		for _, failing := range []string{"a", "ua"} {
+			for _, k := range []vc13Kind{vc13S500, vc13ConnClose, vc13ShortCL} {
+				// No previous version: the twin enters the index failing.
+				bad := withBoth()
+				bad.S[failing] = vc13Script{Kind: k, Fill: 3, CutPct: 50}
+				seqs = append(seqs, &vc13Seq{CacheOn: true, Rounds: []vc13Round{okRound(), bad, withBoth(), okRound()}})
+				seqs = append(seqs, &vc13Seq{CacheOn: false, Rounds: []vc13Round{bad, bad, withBoth()}})
+
+				// With a previous version.
+				seqs = append(seqs, &vc13Seq{CacheOn: true, Rounds: []vc13Round{withBoth(), bad, withBoth()}})
+			}
 		}
 	}
 
@@ -2631,8 +2673,12 @@ func TestVerifC13FaultGrid(t *testing.T) {
 
 	req = append(req, "cache-file-larger-than-limit:"+vc13IdxPath)
 	for _, s := range vc13Slots {
-		req = append(req, "cache-file-larger-than-limit:"+s.path)
+		if s.name != "ua" {
+			req = append(req, "cache-file-larger-than-limit:"+s.path)
+		}
 	}
+
+	req = append(req, "ids-differ-in-case-only", "ids-differ-in-case-only:one-fails-without-previous")
 
 	req = append(req, "idx-from-file:valid", "idx-from-file:fault", "idx-from-file:partial", "idx-from-file:garbage")
 	req = append(req, "cancel:seen-by-the-code", "parallel", "index-empty", "svc-emptyrules-applied",
